@@ -141,7 +141,8 @@ def run(spec, ctx):
                 d = gen_bytes(rng, n)
                 ctx.current = {"len": n, "head": d[:64]}
                 ctx.case(d, n >= 1, sample={"len": n, "head_hex": d[:16].hex()} if n in (17, 33) else None)
-                hx.hexdump(memoryview(d) if rng.random() < 0.5 else d)
+                from vf import iogen
+                hx.hexdump(iogen.view_of(rng, d))
         for b in range(256):
             d = bytes([b]) * rng.choice([1, 16, 17])
             ctx.case(d, True)
